@@ -190,7 +190,8 @@ def main():
             "engine": "vcheck",
             "level_claimed": {"category": "other", "text": text, "design_ref": ref},
             "level_note": note,
-            "technique": "static analysis: " + tech,
+            "technique": "static analysis: " + tech + "; repository-specific bug-pattern rules (unused loop variable, stale loop-carried "
+                         "state, per-iteration accumulator, shared visited set) over the property's mechanism functions (vlib/lints.py)",
         })
     na = []
     for pid in ALL:
